@@ -1,7 +1,7 @@
 /-
 `Proofs.Cf.Shape` — the token shape of an arbitrary derivation (filter selectors included): the interface
 between the lexer simulation (`Cf.Lex*`) and the parser execution (`Cf.Parse*`) halves of
-`compile_complete_kwfree`.  Extends `Cs.Shape` (filter-free) with relations for filter expressions at the
+`compile_complete`.  Extends `Cs.Shape` (filter-free) with relations for filter expressions at the
 grammar's levels `term` / `basic-expr` / `logical-and-expr` / `logical-or-expr` / `function-argument`.
 -/
 import JPV.Impl.Parse
@@ -12,7 +12,8 @@ import JPV.Proofs.Cs.Shape
 namespace JPV.Proofs.Cf
 open JPV JPV.Impl
 
-/-! ### keyword-prefixed function names (the reason `compile_complete` needs a hypothesis) -/
+/-! ### keyword-prefixed function names (the hypothesis `compile_complete` needed before the lexer's keyword
+patterns got their lookahead; kept for `compile_complete_kwfree`) -/
 
 /-- the name begins with one of the keyword literals the lexer tries before function names -/
 def kwName (n : Str) : Bool :=
@@ -20,33 +21,6 @@ def kwName (n : Str) : Bool :=
 
 /-- no registered function extension has a name that begins with `true`, `false` or `null` -/
 def KwFree (env : Env) : Prop := ∀ n, (env.func n).isSome = true → kwName n = false
-
-mutual
-/-- no function expression in the derivation has a keyword-prefixed name -/
-def nkExpr : Spec.CExpr → Bool
-  | .lit _ => true
-  | .not e => nkExpr e
-  | .paren e => nkExpr e
-  | .and l r => nkExpr l && nkExpr r
-  | .or l r => nkExpr l && nkExpr r
-  | .cmp _ l r => nkExpr l && nkExpr r
-  | .rel q => nkSegs q
-  | .root q => nkSegs q
-  | .call f args => !kwName f && nkArgs args
-def nkArgs : List Spec.CExpr → Bool
-  | [] => true
-  | a :: as => nkExpr a && nkArgs as
-def nkSel : Spec.CSelector → Bool
-  | .filter e => nkExpr e
-  | _ => true
-def nkSels : List Spec.CSelector → Bool
-  | [] => true
-  | s :: ss => nkSel s && nkSels ss
-def nkSegs : List Spec.CSegment → Bool
-  | [] => true
-  | .child sels _ :: rest => nkSels sels && nkSegs rest
-  | .desc sels :: rest => nkSels sels && nkSegs rest
-end
 
 /-! ### literal tokens -/
 
